@@ -569,9 +569,13 @@ class Check:
         cov["known_findings_hit"] = sorted(seen)
         ev = {"property_id": self.prop, "tier": self.tier, "seed": self.seed, "level": self.level, "coverage": cov,
               "assumptions": self.assumptions, "wall_s": round(time.time() - self.t0, 2), "violations": len(self.violations)}
-        os.makedirs(os.path.join(ROOT, "evidence"), exist_ok=True)
-        tmp = os.path.join(ROOT, "evidence", self.prop + ".json.tmp")
+        # evidence/ only ever describes runs against /repo itself; mutation-evaluation runs (VERIF_REPO) keep theirs apart
+        edir = os.path.join(ROOT, "evidence") if not ALT else os.path.join(WORK, "evidence")
+        os.makedirs(edir, exist_ok=True)
+        if "rule" not in cov:
+            cov["rule"] = "cases = scenarios emitted by the model run(s) plus the seeded drivers' cases, each executed on the real crate and validated by TLC; distinct by scenario descriptor; non-trivial = the case makes at least one call into the crate"
+        tmp = os.path.join(edir, self.prop + ".json.tmp")
         json.dump(ev, open(tmp, "w"), indent=1)
-        os.replace(tmp, os.path.join(ROOT, "evidence", self.prop + ".json"))
+        os.replace(tmp, os.path.join(edir, self.prop + ".json"))
         log("[done] %s %s: %d violations, %d known, %.1fs" % (self.prop, self.tier, len(self.violations), len(seen), time.time() - self.t0))
         return 1 if self.violations else 0
